@@ -103,6 +103,9 @@ func c07Sels() []c07Sel {
 		{sel: "select substr(key, 0, 1) as g, sum(int(value)) as s, count(1) as c, sum(float(value)) as sf, sum(value) as sv, min(value) as mv where true group by g",
 			names: []string{"g", "s", "c", "sf", "sv", "mv"}, cols: []int{0, 1, 2, 3, 4, 5}, kind: "num", aggr: true},
 		{sel: "select * where key != 'zz'", names: []string{"key", "value"}, cols: []int{0, 1}, kind: "text"},
+		// a filter that rejects part of the scanned pairs: child batches of uneven sizes
+		{sel: "select key, value, int(value) as n where value != '2' & key != 'ab'",
+			names: []string{"key", "value", "n"}, cols: []int{0, 1, 2}, kind: "num"},
 		// numeric group keys (they reach the order plan as decimal text): negative
 		// numbers and floats whose integer parts differ in width
 		{sel: "select int(value) as n, count(1) as c, sum(strlen(key)) as sk where true group by n",
